@@ -33,6 +33,8 @@ static void run_narrow(const char* envname, const char* args, int cnt_pairs_slot
     while (L && line[L - 1] == '\n') line[--L] = 0;
     unsigned long long v;
     char name[64];
+    vf_case("narrow", d, dl); /* heartbeat */
+    if (!strcmp(line, "TICK")) continue;
     if (sscanf(line, "CNT %63s %llu", name, &v) == 2) {
       if (!strcmp(name, "pairs")) { vf_sample("%s %s: %llu operand pairs judged", envname, args, v); vf_cnt(cnt_pairs_slot, v); vf_cnt(VC_EVAL, v); vf_cnt(VC_DISTINCT, v); vf_cnt(VC_TRACES, v); }
       else if (!strcmp(name, "conservative_refusals")) vf_cnt(K_CONSERVATIVE, v);
